@@ -99,6 +99,9 @@ fn build_validation() -> Validation {
     let mut v = Validation::new(Algorithm::EdDSA);
     v.set_required_spec_claims(&AnyClaims::required_claims());
     v.set_audience(&["snap"]);
+    // jsonwebtoken does not check `nbf` unless asked to: a token must not be accepted before its
+    // not-before time.
+    v.validate_nbf = true;
     v
 }
 
